@@ -45,7 +45,7 @@ var (
 	gvalues  = []string{"1", "2", "3", "0.5", "-1", "10", "7", "2.5"}
 	cvalues  = []string{"1", "2", "5", "10", "100", "-3", "7"}
 	crates   = []string{"", "", "", "|@1", "|@0.5", "|@0.25", "|@0.125", "|@0.1", "|@0", "|@nan"}
-	tagsets  = []string{"", "", "|#a", "|#b,a", "|#a,b", "|#host:h1", "|#x,host:h1,y", "|#host:h1,host:h2", "|#k:v,,z", "|#hostx:1", "|#host:"}
+	tagsets  = []string{"", "", "|#a", "|#b,a", "|#a,b", "|#host:h1", "|#x,host:h1,y", "|#host:h1,host:h2", "|#k:v,,z", "|#hostx:1", "|#host:", "|#host,host:h3,e:x", "|#host", "|#a,b,c,d,e", "|#t1,t2,t3"}
 	badLines = []string{"", "bad", "a:1", "a:1|x", ":1|c", "$$:1|c", "a:nan|c", "a:1|c|@x", "_e{1,9}:a|b", "_x", "a:1|cc", "\r", "a:1|c\r"}
 	events   = []string{"_e{1,1}:a|b", "_e{2,3}:ab|x\\n|p:low|#q,r", "_e{1,1}:a|b|h:myhost|d:42|t:error", "_e{0,0}:|"}
 )
@@ -107,7 +107,7 @@ func gen(args []string) {
 		}
 		ns := hx.Pick(r, []string{"", "", "ns"})
 		ih := r.Chance(1, 3)
-		c := mkCase(ns, ih, r.Intn(3)*64, hx.Pick(r, []string{"10.0.0.1", "10.0.0.2", ""}), int64(1000+r.Intn(5)), []byte(dg))
+		c := mkCase(ns, ih, r.Intn(3)*64+r.Intn(4), hx.Pick(r, []string{"10.0.0.1", "10.0.0.2", ""}), int64(1000+r.Intn(5)), []byte(dg))
 		st.Case(c, nl >= 2 && (kinds["bad"]+kinds["normalise"] > 0 || kinds["gauge"] >= 2))
 		st.Hit(fmt.Sprintf("lines:%d", nl))
 		for k, v := range kinds {
@@ -297,7 +297,8 @@ func runOne(c string) (out string) {
 		// emptied by GC) so that pooled objects and tag slices are really reused
 	}
 	second := lexcase.Buffer(secondBatch, len(secondBatch))
-	res := dgrun.Run2(ns, ignoreHost, []dgrun.Dg{{IP: ip, Ts: ts, Msg: buf}}, scribble, []dgrun.Dg{{IP: "9.9.9.9", Ts: ts + 1, Msg: second}})
+	// the low two bits of EXTRACAP select the parser's estimated-tags setting (0, 1, 2, 4)
+	res := dgrun.Run3(ns, ignoreHost, dgrun.EstimatedTags(extra), []dgrun.Dg{{IP: ip, Ts: ts, Msg: buf}}, scribble, []dgrun.Dg{{IP: "9.9.9.9", Ts: ts + 1, Msg: second}})
 	after := time.Now().Unix()
 	if res.Panic != "" {
 		fmt.Fprintf(os.Stderr, "DatagramParser panic on %s: %s\n", hx.B(dg), res.Panic)
